@@ -66,6 +66,10 @@ pub struct JobResult {
 
 pub type OtherResult = JobResult;
 
+/// Where evidence / replays are written (background sweeps redirect it so that they do not overwrite evidence).
+fn out_dir() -> String {
+    std::env::var("VERIF_OUT").unwrap_or_else(|_| "/verif".to_string())
+}
 const VERIF: &str = "/verif";
 
 fn from_explore<M: Model>(name: String, engine: &str, bound: u32, out: explore::Outcome) -> JobResult {
@@ -219,7 +223,7 @@ fn run_check(id: &str, thorough: bool) -> i32 {
     let known = load_known();
     let mut violations = 0;
     let mut known_hits: Vec<String> = Vec::new();
-    let _ = std::fs::create_dir_all(format!("{}/replays", VERIF));
+    let _ = std::fs::create_dir_all(format!("{}/replays", out_dir()));
     let mut viol_lines = Vec::new();
     for (sig, (f, scen_name)) in &merged {
         let k = known.iter().find(|k| {
@@ -232,7 +236,7 @@ fn run_check(id: &str, thorough: bool) -> i32 {
             continue;
         }
         violations += 1;
-        let path = format!("{}/replays/{}-{:016x}.json", VERIF, id, fnv(sig));
+        let path = format!("{}/replays/{}-{:016x}.json", out_dir(), id, fnv(sig));
         let mut doc = f.replay.clone();
         doc["property"] = json!(id);
         doc["signature"] = json!(sig);
@@ -319,8 +323,8 @@ fn run_check(id: &str, thorough: bool) -> i32 {
         "wall_s": t0.elapsed().as_secs_f64(),
         "violations": violations,
     });
-    let _ = std::fs::create_dir_all(format!("{}/evidence", VERIF));
-    let _ = std::fs::write(format!("{}/evidence/{}.json", VERIF, id), serde_json::to_string_pretty(&evidence).unwrap());
+    let _ = std::fs::create_dir_all(format!("{}/evidence", out_dir()));
+    let _ = std::fs::write(format!("{}/evidence/{}.json", out_dir(), id), serde_json::to_string_pretty(&evidence).unwrap());
     println!(
         "{} {}: jobs {} histories {} states {} transitions {} evaluations {} outcomes {} caps {} wall {:.1}s",
         id,
@@ -391,6 +395,11 @@ pub fn result_to_json(r: &JobResult) -> Value {
     })
 }
 
+/// Build output directory (the registered commands use /verif/.target; background sweeps may use another).
+pub fn target_dir() -> String {
+    std::env::var("VERIF_TARGET").unwrap_or_else(|_| "/verif/.target".to_string())
+}
+
 fn leak(s: &str) -> &'static str {
     Box::leak(s.to_string().into_boxed_str())
 }
@@ -439,7 +448,8 @@ pub fn result_from_json(v: &Value, suffix: &str) -> JobResult {
 
 /// Run the same job list in the sibling binary built without overflow checks.
 fn run_sub(id: &str, thorough: bool) -> Result<Vec<JobResult>, String> {
-    let exe = "/verif/.target/mcw/check";
+    let exe_s = format!("{}/mcw/check", target_dir());
+    let exe = exe_s.as_str();
     let out = std::process::Command::new(exe)
         .args(["__sub", id, if thorough { "thorough" } else { "quick" }])
         .output()
